@@ -753,6 +753,28 @@ def rand_point(rng, kind='complex'):
         return mpf(rng.uniform(0.2, 3.0))
     if kind == 'unit':
         return mpf(rng.uniform(0.05, 0.95))
+    if kind == 'neg':
+        return -mpf(rng.uniform(0.2, 3.0))
+    if kind == 'nonneg':
+        return mpf(0) if rng.random() < 0.2 else mpf(rng.uniform(0.2, 3.0))
+    if kind == 'nonpos':
+        return mpf(0) if rng.random() < 0.2 else -mpf(rng.uniform(0.2, 3.0))
+    if kind == 'int':
+        return mpf(rng.randint(-6, 6))
+    if kind == 'posint':
+        return mpf(rng.randint(1, 7))
+    if kind == 'negint':
+        return mpf(-rng.randint(1, 7))
+    if kind == 'nonnegint':
+        return mpf(rng.randint(0, 6))
+    if kind == 'rational':
+        return mpf(rng.randint(-12, 12)) / rng.choice((1, 2, 3, 4, 8))
+    if kind == 'posrational':
+        return mpf(rng.randint(1, 12)) / rng.choice((1, 2, 3, 4, 8))
+    if kind == 'nonzero':
+        return mpc(u(), u())
+    if kind == 'zero':
+        return mpf(0)
     raise ValueError(kind)
 
 
